@@ -73,6 +73,27 @@ def gen_cases(rng, tier):
         band = 750 if curves else 125
         ts = rand_ts(rng)
         cases.append(("fill_px", [i % 2, 0, rng.choice([0, 0, 1]), w, h, 0, w, band, 0] + ts + ops))
+    # curves cut by the clip in special ways: one monotonic quad / cubic piece crossing two opposite borders (taller or wider
+    # than the pixmap), and cubics whose control values are symmetric about a border (the chop parameter is exactly 1/2)
+    for i in range(60 if tier == "quick" else 800):
+        w, h = rng.choice([(24, 24), (40, 30), (100, 100)])
+        k = i % 4
+        far = lambda n: n * rng.uniform(0.3, 1.5)
+        if k == 0:      # tall quad: top to bottom in one piece
+            pts0 = (rng.uniform(0.1, 0.5) * w, -far(h)); c = (rng.uniform(0.2, 0.9) * w, rng.uniform(0.5, 1.0) * h); p1 = (rng.uniform(0.5, 0.95) * w, h + far(h))
+            ops = [0, f2b(pts0[0]), f2b(pts0[1]), 2, f2b(c[0]), f2b(c[1]), f2b(p1[0]), f2b(p1[1]), 1, f2b(-far(w)), f2b(p1[1]), 1, f2b(-far(w)), f2b(pts0[1]), 4]
+        elif k == 1:    # wide quad: left to right in one piece
+            p0 = (-far(w), rng.uniform(0.1, 0.5) * h); c = (rng.uniform(0.5, 1.0) * w, rng.uniform(0.2, 0.9) * h); p1 = (w + far(w), rng.uniform(0.5, 0.95) * h)
+            ops = [0, f2b(p0[0]), f2b(p0[1]), 2, f2b(c[0]), f2b(c[1]), f2b(p1[0]), f2b(p1[1]), 1, f2b(p1[0]), f2b(-far(h)), 1, f2b(p0[0]), f2b(-far(h)), 4]
+        elif k == 2:    # cubic symmetric about x = 0 (left border)
+            a, b = rng.choice([30.0, 12.0, 7.5]), rng.choice([10.0, 4.0, 2.5])
+            ys = sorted(rng.uniform(0.05, 0.95) * h for _ in range(4))
+            ops = [0, f2b(-a), f2b(ys[0]), 3, f2b(-b), f2b(ys[1]), f2b(b), f2b(ys[2]), f2b(a), f2b(ys[3]), 1, f2b(w * 0.8), f2b(ys[3]), 1, f2b(w * 0.8), f2b(ys[0]), 4]
+        else:           # cubic symmetric about y = 0 (top border)
+            a, b = rng.choice([30.0, 12.0, 7.5]), rng.choice([10.0, 4.0, 2.5])
+            xs = sorted(rng.uniform(0.05, 0.95) * w for _ in range(4))
+            ops = [0, f2b(xs[0]), f2b(-a), 3, f2b(xs[1]), f2b(-b), f2b(xs[2]), f2b(b), f2b(xs[3]), f2b(a), 1, f2b(xs[3]), f2b(h * 0.8), 1, f2b(xs[0]), f2b(h * 0.8), 4]
+        cases.append(("fill_px", [i % 2, 0, rng.choice([0, 0, 1]), w, h, 0, w, 750, 0] + list(IDENT) + ops))
     # large cubics with lopsided control polygons (the flattening count must follow the larger deviation)
     for i in range(48 if tier == "quick" else 600):
         w, h = rng.choice([(200, 120), (160, 160), (120, 200)])
